@@ -25,6 +25,22 @@ pub fn generate(r: &mut Prng, seed: u64, run: u64, thorough: bool) -> Scenario {
         4..=7 => "truncate",
         _ => "disk",
     };
+    if r.chance(1, 30) {
+        // the binary files shipped with the repository (thorough: sometimes the full ontology)
+        let big = thorough && r.chance(1, 40);
+        let n = crate::facts::real_files(big).len();
+        if n > 0 {
+            let which = r.usize_below(n);
+            let rf = &crate::facts::real_files(big)[which];
+            let p = match rf.version {
+                1 => PathKind::BinV1,
+                2 => PathKind::BinV2,
+                _ => PathKind::BinV3,
+            };
+            let replicas = vec![ReplicaSpec::draw(r, p), ReplicaSpec::draw(r, p)];
+            return Scenario { prop: P.into(), seed, run, mode: format!("realfile:{}", rf.name), facts: rf.facts.clone(), replicas, aux_seed: r.next_u64(), ..Default::default() };
+        }
+    }
     if mode != "layout" {
         // files of 60 B - 4 KB so that every offset can be enumerated
         cfg.n_terms = if thorough && r.chance(1, 10) { r.urange(20, 60) } else { r.urange(2, 14) };
@@ -146,6 +162,70 @@ pub fn execute(ctx: &mut Ctx, s: &Scenario) -> Outcome {
                 }
             }
             out.nontrivial = out.ontologies >= 2;
+        }
+        m if m.starts_with("realfile:") => {
+            let name = &m["realfile:".len()..];
+            let Some(rf) = crate::facts::real_files(false).iter().chain(crate::facts::real_files(name == "ontology.hpo").iter()).find(|x| x.name == name) else { return out };
+            let version = rf.version;
+            // facts come from the independent decoder; the library must decode the shipped file to their model
+            let projs: Vec<Proj> = match version {
+                1 => vec![Proj::V1],
+                2 => vec![Proj::V2],
+                _ => vec![],
+            };
+            let expected = obs_of(&project_all(&rf.facts, &projs), true);
+            for via_file in [false, true] {
+                set_hash(s.replicas[0].hash);
+                let b = load_bytes(ctx, &rf.bytes, via_file);
+                out.mixin(tag(&b.describe()));
+                match &b {
+                    Built::Ok(o) => {
+                        out.ontologies += 1;
+                        let got = observe(o);
+                        out.mixin(digest(&got));
+                        report_diffs(&mut out, P, &format!("shipped file tests/{name}|layout-decode-differs(v{version})"), &expected, &got, IcCmp::Ulp);
+                    }
+                    other => out.violate(P, format!("layout-rejected(v{version})"), format!("shipped file tests/{name}: {}", other.describe())),
+                }
+            }
+            // the same facts re-encoded by the independent encoder under scheduled record orders
+            for spec in &s.replicas {
+                let bytes = encode(&rf.facts, version, &spec.bin);
+                set_hash(spec.hash);
+                let b = load_bytes(ctx, &bytes, false);
+                match &b {
+                    Built::Ok(o) => {
+                        out.ontologies += 1;
+                        let got = observe(o);
+                        out.mixin(digest(&got));
+                        report_diffs(&mut out, P, &format!("tests/{name} re-encoded in another record order|layout-decode-differs(v{version})"), &expected, &got, IcCmp::Ulp);
+                    }
+                    other => out.violate(P, format!("layout-rejected(v{version})"), format!("tests/{name} re-encoded: {}", other.describe())),
+                }
+            }
+            // crash points on the shipped file: every section boundary +-1 and a seeded sample of offsets
+            if rf.bytes.len() < 2_000_000 {
+                let mut offs: Vec<usize> = vec![0, 1, 3, 4, 5, 7, 8, rf.bytes.len() - 1];
+                for e in section_ends(&rf.bytes, version) {
+                    for d in [-1i64, 0, 1] {
+                        let o = e as i64 + d;
+                        if o >= 0 && (o as usize) < rf.bytes.len() {
+                            offs.push(o as usize);
+                        }
+                    }
+                }
+                for _ in 0..40 {
+                    offs.push(r.usize_below(rf.bytes.len()));
+                }
+                for k in offs {
+                    must_reject(ctx, &mut out, &rf.bytes[..k], "prefix-accepted", || format!("prefix of {k} bytes of tests/{name} ({} bytes) was returned as an ontology", rf.bytes.len()), false);
+                }
+                let mut ext = rf.bytes.clone();
+                ext.extend_from_slice(&[0, 0, 0, 0]);
+                must_reject(ctx, &mut out, &ext, "extension-accepted", || format!("tests/{name} followed by an empty section was returned as an ontology"), false);
+            }
+            ctx.counters.add("probe.shipped_files_checked", 1);
+            out.nontrivial = true;
         }
         "truncate" | "disk" => {
             let spec = &s.replicas[0];
